@@ -104,6 +104,9 @@ class NCfg:
         self.ops = ['f1', 's']
         self.ckpt_dir = None
         self.inv32 = False                           # second-order data in float32, factors in float64
+        self.hook = rng.random() < 0.7               # update_factors_in_hook
+        self.accum = rng.choice([1, 1, 2, 3])        # accumulation_steps: every 'f1' below stands for `accum` passes
+        self._expanded = False
         for k, v in force.items():
             setattr(self, k, v)
         if self.din % 1:
@@ -112,6 +115,16 @@ class NCfg:
     @property
     def world(self):
         return self.pp * self.dp * self.mp
+
+    def finalize(self):
+        """a training iteration consists of `accum` forward/backward passes: expand the history once"""
+        if not self._expanded:
+            ops = []
+            for o in self.ops:
+                ops += ['f1'] * self.accum if o == 'f1' else [o]
+            self.ops = ops
+            self._expanded = True
+        return self
 
     def describe(self):
         d = {k: (str(v) if isinstance(v, Fraction) else v) for k, v in self.__dict__.items()}
@@ -141,6 +154,7 @@ def stage_input(cfg, stage, d, pass_):
 
 def run_real(cfg, sched_seed=0):
     stubs()
+    cfg.finalize()
     import torch.distributed as dist
     from deepspeed.pipe import PipelineModule
     from deepspeed.runtime.pipe.topology import PipeModelDataParallelTopology
@@ -191,6 +205,7 @@ def run_real(cfg, sched_seed=0):
                     model, factor_update_steps=cfg.fus, inv_update_steps=cfg.ius, damping=float(cfg.damping),
                     factor_decay=float(cfg.decay), kl_clip=(None if cfg.kl is None else float(cfg.kl)), lr=float(cfg.lr),
                     allreduce_bucket_cap_mb=cfg.cap_mb, compute_eigenvalue_outer_product=cfg.prediv,
+                    accumulation_steps=cfg.accum, update_factors_in_hook=cfg.hook,
                     symmetry_aware=cfg.sym, data_parallel_group=groups['data'], model_parallel_group=groups['model'],
                     pipeline_parallel_group=groups['pipe'], inv_dtype=(torch.float32 if getattr(cfg, 'inv32', False) else DT), factor_checkpoint_dir=cfg.ckpt_dir)
         p = mk()
@@ -292,13 +307,14 @@ def reference(cfg, loads=None):
     combined gradients (float64). Returns {stage: [per 's' op: ([(A,G)...], [V...], [D...])]}."""
     class C:
         pass
+    cfg.finalize()
     out = {}
     for stage in range(cfg.pp):
         layers = [(k, w.clone().requires_grad_(True), None if b is None else b.clone().requires_grad_(True))
                   for k, w, b in full_layers(cfg, stage)]
         nl = len(layers)
         rc = C()
-        rc.method, rc.prediv, rc.hook, rc.accum = 'eigen', cfg.prediv, True, 1
+        rc.method, rc.prediv, rc.hook, rc.accum = 'eigen', cfg.prediv, cfg.hook, cfg.accum
         rc.hyper = {'factor_update_steps': cfg.fus, 'inv_update_steps': cfg.ius, 'damping': cfg.damping,
                     'factor_decay': cfg.decay, 'kl_clip': cfg.kl, 'lr': cfg.lr}
         ref = ref_kfac.Ref(rc, [None] * nl)
@@ -403,6 +419,7 @@ def script_line(cfg, rr):
         tokens *= x
     return (f'neoxs pp={cfg.pp} dp={cfg.dp} mp={cfg.mp} stages={"|".join(stages)} tokens={tokens} fus={cfg.fus} ius={cfg.ius} '
             f'bucketed={int(cfg.cap_mb > 0)} cap={int(cfg.cap_mb * 1000 * 1000)} es=8 sym={int(cfg.sym)} cube=1 '
+            f'hook={int(cfg.hook)} accum={cfg.accum} '
             f'ops={",".join("f" if o == "f1" else "s" for o in cfg.ops)}')
 
 
